@@ -308,6 +308,14 @@ pub fn run(tier: &str) -> i32 {
                                 if g != w2 {
                                     bad(acc, "rendering-differs", format!("junit marks {:?}, expected {:?}", list, w));
                                 }
+                                // the text of a failure names the expectation and every evaluated status, like the other renderings
+                                let mut have: Vec<(String, String)> = crate::report::parse_junit(&o.out).unwrap_or_default().into_iter().filter(|c| c.mark == "fail").map(|c| (crate::report::bare(&c.name), c.failure_text.trim().to_string())).collect();
+                                let mut wantf: Vec<(String, String)> = want.iter().flat_map(|c| c.failed.iter().map(|(n, e, ev)| (n.clone(), format!("Expected = {}, Evaluated = [{}]", e, ev.join(", "))))).collect();
+                                have.sort();
+                                wantf.sort();
+                                if have != wantf {
+                                    bad(acc, "rendering-differs-failure-text", format!("junit failure texts {:?}, the other renderings give {:?}", have, wantf));
+                                }
                                 for pb in crate::report::junit_counter_problems(&o.out) {
                                     bad(acc, "junit-counters", pb);
                                 }
